@@ -538,6 +538,24 @@ fn main() {
             Found::Other(mut it) => {
                 let sp = span_lines(it.span());
                 norm::strip_item_attrs(&mut it);
+                // module relocation: `use super::x` -> `use <path>::x` when the unit flattens the module tree
+                for o in &d.opts {
+                    if let Some(path) = o.strip_prefix("rebase_super=") {
+                        if let syn::Item::Use(u) = &mut it {
+                            if let syn::UseTree::Path(up) = &mut u.tree {
+                                if up.ident == "super" {
+                                    let rest = (*up.tree).clone();
+                                    let mut tree = rest;
+                                    for seg in path.split("::").collect::<Vec<_>>().into_iter().rev() {
+                                        tree = syn::UseTree::Path(syn::UsePath { ident: syn::Ident::new(seg, Span::call_site()), colon2_token: Default::default(), tree: Box::new(tree) });
+                                    }
+                                    u.tree = tree;
+                                    n.rules.push(norm::RuleApp { rule: "N12".into(), line: sp.0, note: format!("use super:: re-rooted at {path} (module tree flattened in the unit)") });
+                                }
+                            }
+                        }
+                    }
+                }
                 let f = syn::File { shebang: None, attrs: vec![], items: vec![it] };
                 (prettyplease::unparse(&f), sp, 0, 0)
             }
